@@ -8,7 +8,7 @@ from permute import npc as NPC
 
 COQ_HEADER = """From PV Require Import Lib.Base Model.Npc Corr.C07.
 Open Scope Q_scope."""
-RULE = ("npc on matrices B<=10, n<=4 over alphabets of 1..4 values (ties), every row rotated into the observed position with "
+RULE = ("npc on matrices B<=10, n<=4 (and 20% with 5..16 partial tests, B<=30; Liptak p-values up to 1-2^-30) over alphabets of 1..4 values (ties), every row rotated into the observed position with "
         "pvalues=(count+1)/(reps+1) as sim_npc forms them, plus arbitrary pvalues k/8, all combiners (fisher, liptak, tippett, "
         "valid/invalid callables), plus1 in {T,F}, int and float dtypes; sim_npc driven by a scripted Randomizer with "
         "table-lookup test functions (NumPy and Python numbers); non-trivial = matrix with a tie in some column and global p "
@@ -23,9 +23,14 @@ def cases(tier, rng, dist):
     N = 500 if tier == "quick" else 5000
     for _ in range(N):
         B, n = rng.randint(1, 10), rng.randint(2, 4)
-        m = gen_matrix(rng, B, n, rng.randint(0, 3))
         spec = rng.choice(COMBS)
+        if rng.random() < 0.2:
+            # many partial tests: summation order inside the combining functions starts to matter
+            B, n = rng.randint(2, 30), rng.choice([5, 8, 9, 12, 16]); spec = rng.choice(["liptak", "liptak", "fisher", "tippett"])
+        m = gen_matrix(rng, B, n, rng.randint(0, 3) if n <= 4 else rng.choice([3, B, 3 * B]))
         mode = rng.random()
+        if n > 4:
+            mode = 0.0      # the observed statistics are a row of the matrix (sim_npc's construction)
         if mode < 0.5:   # observed row is a row of the matrix (rotation argument)
             i0 = rng.randrange(B)
             yield {"f": "npc", "distr": [[str(v) for v in r] for r in m], "obs_row": i0, "p": None, "comb": spec,
@@ -33,7 +38,7 @@ def cases(tier, rng, dist):
         else:
             p = [str(Fraction(rng.randint(1, 8), 8)) for _ in range(n)]
             if spec == "liptak":
-                p = [str(Fraction(rng.randint(1, 7), 8)) for _ in range(n)]
+                p = [str(rng.choice([Fraction(rng.randint(1, 7), 8), 1 - Fraction(1, 2**rng.choice([10, 20, 30])), Fraction(9999, 10000)])) for _ in range(n)]
             yield {"f": "npc", "distr": [[str(v) for v in r] for r in m], "obs_row": None, "p": p, "comb": spec,
                    "plus1": rng.random() < 0.5, "dtype": rng.choice(["float", "int"])}
     for _ in range(N // 2):
